@@ -12,6 +12,9 @@ from facts import walk, callee_is, src, loc, peel, is_local
 def check(run):
     add_rules(run, ['ACC.pair', 'ACC.guard', 'ACC.order', 'ACC.exit', 'ACC.nocapture', 'GATE.form',
                     'GATE.dom', 'GATE.intrinsic'])
+    run.rule('RESID.agg', 'the residual stream is reduced by the statistic the kernel is named after, '
+             'called with at most that statistic\'s own minimum count (mean 1, std 2, skew 3): a '
+             'larger literal would null windows on which the statistic is defined')
     run.rule('RESID.range', 'the residual statistics are recomputed over exactly the window '
              '`start.unwrap_or(0)..=end` with a pairwise null skip on both series')
     for cfg in configs(run):
@@ -73,6 +76,21 @@ def resid_range(run, m):
                                              for cs, l in nonnull)
                 det = 'reads %s' % sorted(reads)
             n += 1
+            # what reduces the residuals: the parent method call on this map
+            AGG = {'resid_mean': ('vmean', 1), 'resid_std': ('vstd', 2), 'resid_skew': ('vskew', 3)}
+            stat = [k_ for k_ in AGG if k_ in m.k.name]
+            red = [x for x in walk(m.body) if x.get('k') == 'MethodCall' and peel(x['ch'][0]) is e]
+            if stat:
+                meth, K = AGG[stat[0]]
+                okr = len(red) == 1 and red[0]['method'] == meth
+                lit = None
+                if okr and len(red[0]['ch']) > 1:
+                    a_ = peel(red[0]['ch'][1])
+                    lit = int(a_['v']) if a_.get('k') == 'Lit' and str(a_.get('v', '')).isdigit() else None
+                    okr = lit is not None and lit <= K
+                run.ob('RESID.agg', m.k.fn, 'residual aggregate', okr, loc(red[0]) if red else loc(e),
+                       'reduced by `%s(%s)`; expected %s with a minimum count <= %d'
+                       % (red[0]['method'] if red else '?', '' if lit is None else lit, meth, K))
             run.ob('RESID.range', m.k.fn, 'residual loop', r_ok and idx_ok and g_ok,
                    loc(e), 'range `%s` (%s), reads %s, pairwise guard %s; %s'
                    % (rng, 'ok' if r_ok else 'BAD', 'ok' if idx_ok else 'BAD', 'ok' if g_ok else 'MISSING', det))
